@@ -36,7 +36,7 @@ def auth(key, challenge, url, created_at=NOW, kind=22242, tags=None):
     return make_event(key, kind, created_at, t, "")
 
 
-def variants(cfgname, ch_this, ch_other, ch_old):
+def variants(cfgname, ch_this, ch_other, ch_old, accepted_elsewhere=None):
     """name -> (payload, expected) with expected in {'K1','K2',None (invalid),'free'}"""
     url = url_of(cfgname)
     v = {}
@@ -79,6 +79,10 @@ def variants(cfgname, ch_this, ch_other, ch_old):
     v["payload_empty_obj"] = ({}, None)
     e3 = auth("K1", ch_this, url)
     v["id_forged"] = (dict(e3, id="ab" * 32), "free")
+    if accepted_elsewhere is not None:
+        # id and sig copied from a genuine AUTH event that another connection got accepted earlier; the rest is for this connection
+        v["id_sig_of_accepted_auth"] = (dict(e3, id=accepted_elsewhere["id"], sig=accepted_elsewhere["sig"]), None)
+        v["id_sig_of_accepted_auth_other_key"] = (dict(auth("K2", ch_this, url), id=accepted_elsewhere["id"], sig=accepted_elsewhere["sig"]), None)
     return v
 
 
@@ -134,6 +138,13 @@ class Bench:
         ch = fr[0][1] if fr and fr[0][0] == "AUTH" else None
         return c, ch
 
+    def connect_from(self, addr):
+        self.n += 1
+        c = self.w.connect("c%d" % self.n, addr)
+        self.w.run(1e6)
+        fr = frames(c)
+        return c, (fr[0][1] if fr and fr[0][0] == "AUTH" else None)
+
     def attempt(self, c, payload):
         n0 = len(c.transcript)
         self.w.send(c, json.dumps(["AUTH", payload]), 1e6)
@@ -178,8 +189,14 @@ def run_variants(case):
         old.drop()
         b.w.run(1e6)
         other, ch_other = b.connect()
+        # a genuine AUTH accepted on yet another connection (its id/sig are replayed by two variants)
+        donor, ch_donor = b.connect()
+        accepted = auth("K1", ch_donor, url_of(cfgname))
+        b.attempt(donor, accepted)
+        if b.identity(donor) != "K1":
+            viol.append({"case": cid, "clause": "valid-answer-authenticates", "sig": "donor", "detail": "valid AUTH by K1 was not accepted"})
         issued = list(TOKENS.issued)
-        names = list(variants(cfgname, "x" * 32, "y" * 32, "z" * 32))
+        names = list(variants(cfgname, "x" * 32, "y" * 32, "z" * 32, accepted))
         challenges = [ch_old, ch_other]
         for nm in names:
             c, ch = b.connect()
@@ -187,7 +204,7 @@ def run_variants(case):
             if ch is None:
                 viol.append({"case": cid, "clause": "challenge-sent", "sig": nm, "detail": "no AUTH challenge on connect"})
                 continue
-            payload, expected = variants(cfgname, ch, ch_other, ch_old)[nm]
+            payload, expected = variants(cfgname, ch, ch_other, ch_old, accepted)[nm]
             before = "none"
             if pre == "K2":
                 b.attempt(c, auth("K2", ch, url_of(cfgname)))
@@ -216,6 +233,21 @@ def run_variants(case):
                     viol.append({"case": cid, "clause": "answer-useless-on-another-connection", "sig": nm,
                                  "detail": "answer to connection %s's challenge authenticated another connection as %s" % (c.name, ido)})
                     other, ch_other = b.connect()
+        # reconnecting from the same address: a new challenge, and the answer to the old one is useless
+        ra, ch_a = b.connect_from("7.7.7.7")
+        ans = auth("K1", ch_a, url_of(cfgname))
+        b.attempt(ra, ans)
+        ra.drop()
+        b.w.run(1e6)
+        rb, ch_b = b.connect_from("7.7.7.7")
+        challenges += [ch_a, ch_b]
+        if ch_a == ch_b:
+            viol.append({"case": cid, "clause": "challenges-distinct", "sig": "reconnect", "detail": "a reconnect from the same address got the previous challenge again"})
+        b.attempt(rb, ans)
+        n += 1
+        if b.identity(rb) != "none":
+            viol.append({"case": cid, "clause": "answer-useless-on-another-connection", "sig": "reconnect",
+                         "detail": "the answer given on an earlier connection from the same address authenticated the new connection"})
         # challenges: one fresh 128-bit draw each, pairwise distinct
         chs = [x for x in challenges if x]
         if len(set(chs)) != len(chs):
